@@ -213,7 +213,14 @@ impl<NonceSize: Unsigned, Rounds, IsX> StreamCipherSeek for ChaChaAny<NonceSize,
     fn try_seek<T: SeekNum>(&mut self, pos: T) -> Result<(), LoopError> {
         pos.try_into()
             .map_err(|_| LoopError)
-            .map(|ct| Self::seek(self, ct))
+            .and_then(|ct: u64| {
+                // The 32-bit-counter variant has only 2^32 blocks of keystream.
+                if NonceSize::U32 == 12 && ct > SMALL_LEN * BLOCK64 {
+                    return Err(LoopError);
+                }
+                Self::seek(self, ct);
+                Ok(())
+            })
     }
 }
 
